@@ -8,6 +8,10 @@
 mod c10;
 mod c12;
 mod c17;
+mod alpha_index;
+mod join;
+mod working_memory;
+mod rete_agenda;
 
 pub type W = (&'static str, fn() -> (bool, String));
 
@@ -17,6 +21,10 @@ fn main() {
     all.extend(c10::witnesses());
     all.extend(c12::witnesses());
     all.extend(c17::witnesses());
+    all.extend(alpha_index::witnesses());
+    all.extend(join::witnesses());
+    all.extend(working_memory::witnesses());
+    all.extend(rete_agenda::witnesses());
     let mut ran = false;
     for (n, f) in &all {
         if name == "all" || n.starts_with(&name) {
